@@ -165,6 +165,13 @@ def proof_status(pid, regenerate=None):
     t0 = time.time()
     if regenerate:
         regenerate()
+    # the keyword table is part of the model driver every check runs (Main imports CmGen.NamedColors) and of several properties'
+    # theorem closures: it is regenerated for every property, not only for C07
+    try:
+        from translate import named as _named
+        _named.generate()
+    except Exception:  # noqa  (a tree whose package does not import: the correspondence run will say so)
+        pass
     forb = grep_forbidden()
     ok_drv, out_drv = lake_build(["cmmodel", "CmAudit"])
     if not ok_drv:
